@@ -313,6 +313,10 @@ def c15(tier, seed):
         'cases': per, 'queries_discharged': tot['queries'], 'solver_s': round(tot['solver_s'], 2),
         'functions_encoded': sorted(fns), 'stubs': sorted(stubs), 'failures_confirmed_natively': confirmed, 'build_s': build_s,
     }
+    from .props import kani_cross_check
+    rc = max(rc, kani_cross_check('C15', ev, ['bump_in_range', 'bump_out_of_range_panics']))
+    if ev.violations > 0:
+        rc = 1
     ev.assumptions = ['lexer state satisfies the representation invariant before bump (established by new/next/bump)',
                       'valid UTF-8 for str sources', 'sources of at most N bytes']
     if tot['leaves'] == 0:
